@@ -120,7 +120,10 @@ pub fn statement(rng: &mut Rng, mistakes: &mut u32) -> String {
     };
     if syntax_break {
         *mistakes = mistakes.saturating_sub(1);
-        match rng.below(5) {
+        match rng.below(7) {
+            // an ELSE that belongs to no IF, and an ELSE after a THEN clause of more than one statement
+            5 => format!("{} ELSE {}", s, statement(rng, &mut 0)),
+            6 => format!("IF 1 THEN {} : {} ELSE {}", s, statement(rng, &mut 0), statement(rng, &mut 0)),
             0 => format!("{} +", s),
             1 => format!("{} )", s),
             2 => s.replacen('=', "", 1),
@@ -139,6 +142,15 @@ pub fn line(rng: &mut Rng, mistake_pct: u64) -> String {
     let mut parts = vec![];
     for _ in 0..n {
         parts.push(statement(rng, &mut mistakes));
+    }
+    if rng.chance(1, 10) {
+        // an IF with a constant condition keeps the line single-path: the clause that is not taken is free of mistakes
+        // (taken from a fixed list: generated statements are not guaranteed to be well-typed even without injected mistakes)
+        let other = rng.s(&["A = 1", "PRINT \"x\"", "N$ = \"q\"", "X = X + 1", "PRINT A; B$", "M(1) = 2", "RESTORE"]).to_string();
+        let k = rng.usize(parts.len());
+        parts[k] = if rng.coin() { format!("IF 1 THEN {} ELSE {}", parts[k], other) } else { format!("IF 0 THEN {} ELSE {}", other, parts[k]) };
+        // (what follows on the line belongs to the clause that ends the line, so it has to be the last statement)
+        parts.truncate(k + 1);
     }
     if rng.chance(1, 8) {
         parts.push(rng.s(&["DATA 1, two", "REM note", "DATA \"q\""]).to_string());
